@@ -15,6 +15,11 @@
 //!    Small capacities (N <= 10) use the boundary alphabet P_N; large ones (N = 64, 65, 130: 4096 bits,
 //!    one word more, two 4096-bit blocks and two words) use a reduced alphabet around the word and the
 //!    4096-bit block boundaries so that the closure stays small while every observer still covers all 64N bits.
+//!    Once for every DISTINCT state reached (of the closure, of the sweep of 2., and after every step of a
+//!    replay) the iterator PROTOCOL is judged: every standard way of consuming `iter_bits()` - `size_hint`,
+//!    `nth`, `skip`, `step_by`, `take`, `last`, `count`, `fold`, use after exhaustion, `by_ref` interleavings
+//!    of nth and next - on a fresh iterator and on one that has already yielded j items, must observe what
+//!    the same generic code observes on the model's ascending `Vec<usize>` (see `iter_protocol`).
 //! 2. a bounded sweep with the FULL position alphabet 0..64N (every index, not only the boundary ones)
 //!    to a small stated depth — labelled as bounded, not a closure.
 //! 3. the binary operators `& | ^` (on references) and `&= |= ^=` on ALL ordered pairs of the first
@@ -34,6 +39,7 @@ use rlib_bitset::Bitset;
 use serde::{Deserialize, Serialize};
 use std::collections::{BTreeSet, HashSet, VecDeque};
 use std::sync::atomic::{AtomicU64, Ordering};
+use std::sync::Mutex;
 use vcore::*;
 
 /// Bumped on every call into the code under test; a watchdog turns a stall (a call that never returns,
@@ -472,37 +478,36 @@ impl Use {
     }
 }
 
-/// What the consumption observes, in order (a number is written as Some(number)).  `cap` bounds what is
-/// collected from an iterator that does not end.
-fn consume<I: Iterator<Item = usize>>(mut it: I, pre: usize, u: Use, cap: usize) -> Vec<Option<usize>> {
+/// What the consumption observes, in order, written to `out` (a number is written as Some(number)).
+/// `cap` bounds what is collected from an iterator that does not end.
+fn consume<I: Iterator<Item = usize>>(mut it: I, pre: usize, u: Use, cap: usize, out: &mut Vec<Option<usize>>) {
+    out.clear();
     for _ in 0..pre {
         it.next();
     }
     match u {
-        Use::Nth(k) => vec![it.nth(k), it.next(), it.nth(k), it.next()],
+        Use::Nth(k) => out.extend([it.nth(k), it.next(), it.nth(k), it.next()]),
         Use::Skip(k) => {
-            let mut v: Vec<Option<usize>> = it.by_ref().skip(k).take(3).map(Some).collect();
-            v.push(it.next());
-            v
+            out.extend(it.by_ref().skip(k).take(3).map(Some));
+            out.push(it.next());
         }
-        Use::StepBy(s) => it.step_by(s).take(cap).map(Some).collect(),
+        Use::StepBy(s) => out.extend(it.step_by(s).take(cap).map(Some)),
         Use::Take(k) => {
-            let mut v: Vec<Option<usize>> = it.by_ref().take(k).map(Some).collect();
-            v.push(it.next());
-            v
+            out.extend(it.by_ref().take(k).map(Some));
+            out.push(it.next());
         }
-        Use::Last => vec![it.last()],
-        Use::Count => vec![Some(it.count())],
+        Use::Last => out.push(it.last()),
+        Use::Count => out.push(Some(it.count())),
         Use::Fold => {
             let (n, h) = it.fold((0usize, 0usize), |(n, h), x| (n + 1, h.wrapping_mul(1_000_003).wrapping_add(x + 1)));
-            vec![Some(n), Some(h)]
+            out.extend([Some(n), Some(h)]);
         }
         Use::Exhaust => {
             let mut n = 0;
             while n < cap && it.next().is_some() {
                 n += 1;
             }
-            vec![Some(n), it.next(), it.next(), it.nth(0), it.nth(2), Some(it.by_ref().count()), it.last()]
+            out.extend([Some(n), it.next(), it.next(), it.nth(0), it.nth(2), Some(it.by_ref().count()), it.last()]);
         }
     }
 }
@@ -533,6 +538,24 @@ static PROTOCOL_STATES: AtomicU64 = AtomicU64::new(0);
 /// nth cases that start behind a yielded member in the middle of a word and end in a later word or behind the end
 static NTH_LEAVING_A_STARTED_WORD: AtomicU64 = AtomicU64::new(0);
 
+/// (states judged, cases per entry of `USES`, nth cases leaving a started word) so far in the process
+fn protocol_counts() -> (u64, Vec<u64>, u64) {
+    let cases = PROTOCOL_CASES.iter().map(|c| c.load(Ordering::Relaxed)).collect();
+    (PROTOCOL_STATES.load(Ordering::Relaxed), cases, NTH_LEAVING_A_STARTED_WORD.load(Ordering::Relaxed))
+}
+
+/// The evidence entry for what was judged since `before`.
+fn protocol_evidence(before: &(u64, Vec<u64>, u64)) -> Value {
+    let now = protocol_counts();
+    let per: serde_json::Map<String, Value> = USES.iter().zip(now.1.iter().zip(&before.1)).map(|(u, (a, b))| (u.to_string(), json!(a - b))).collect();
+    json!({
+        "states_judged": now.0 - before.0,
+        "cases": now.1.iter().sum::<u64>() - before.1.iter().sum::<u64>(),
+        "cases_per_family": per,
+        "nth_from_behind_a_yielded_member_inside_a_word_to_a_later_word_or_the_end": now.2 - before.2,
+    })
+}
+
 fn short(v: &[Option<usize>]) -> String {
     if v.len() <= 12 {
         format!("{v:?}")
@@ -541,9 +564,26 @@ fn short(v: &[Option<usize>]) -> String {
     }
 }
 
+/// What one state's protocol compared: cases per entry of `USES`, nth cases leaving a started word.
+struct ProtocolCount {
+    cases: [u64; 9],
+    leaving: u64,
+}
+
+impl ProtocolCount {
+    /// added once per distinct state (by whoever records the state as passed), so the totals are
+    /// those of the distinct states whatever the timing of the explorer's threads
+    fn record(&self) {
+        PROTOCOL_STATES.fetch_add(1, Ordering::Relaxed);
+        for (c, n) in PROTOCOL_CASES.iter().zip(self.cases) {
+            c.fetch_add(n, Ordering::Relaxed);
+        }
+        NTH_LEAVING_A_STARTED_WORD.fetch_add(self.leaving, Ordering::Relaxed);
+    }
+}
+
 /// Every standard way of consuming `b.iter_bits()` must see the ascending list of the set: Err((family, message)).
-fn iter_protocol<const N: usize>(b: &Bitset<N>, m: &[bool], marks: &[usize]) -> Result<(), (&'static str, String)> {
-    PROTOCOL_STATES.fetch_add(1, Ordering::Relaxed);
+fn iter_protocol<const N: usize>(b: &Bitset<N>, m: &[bool], marks: &[usize]) -> Result<ProtocolCount, (&'static str, String)> {
     let cap = 64 * N + 2;
     let members: Vec<usize> = (0..64 * N).filter(|&i| m[i]).collect();
     let l = members.len();
@@ -551,24 +591,26 @@ fn iter_protocol<const N: usize>(b: &Bitset<N>, m: &[bool], marks: &[usize]) -> 
     let mut cases = [0u64; 9];
 
     // size_hint: lower <= what is left <= upper, before every next() of a full walk and after nth(k) on a fresh iterator
-    fn hint<I: Iterator>(it: &I, left: usize, after: &str, arg: usize) -> Result<(), String> {
+    /// Some(message) if size_hint() contradicts the number of items that are left
+    fn bad_hint<I: Iterator>(it: &I, left: usize) -> Option<String> {
         let (lo, hi) = it.size_hint();
-        if lo > left || hi.is_some_and(|h| h < left) {
-            return Err(format!("iter_bits() after {after}({arg}): size_hint() = ({lo}, {hi:?}) but {left} items are left"));
-        }
-        Ok(())
+        (lo > left || hi.is_some_and(|h| h < left)).then(|| format!("size_hint() = ({lo}, {hi:?}) but {left} items are left"))
     }
     PROGRESS.fetch_add(1, Ordering::Relaxed);
     let walked = catch(|| {
         let mut it = b.iter_bits();
         for j in 0..=l + 1 {
-            hint(&it, l.saturating_sub(j), "next() x ", j)?;
+            if let Some(msg) = bad_hint(&it, l.saturating_sub(j)) {
+                return Err(format!("iter_bits() of the set with {l} members, after {j} next() calls: {msg}"));
+            }
             it.next();
         }
         for &k in &ranks {
             let mut it = b.iter_bits();
             it.nth(k);
-            hint(&it, l.saturating_sub(k + 1), "nth", k)?;
+            if let Some(msg) = bad_hint(&it, l.saturating_sub(k + 1)) {
+                return Err(format!("iter_bits() of the set with {l} members, after nth({k}): {msg}"));
+            }
         }
         Ok(())
     });
@@ -579,14 +621,15 @@ fn iter_protocol<const N: usize>(b: &Bitset<N>, m: &[bool], marks: &[usize]) -> 
         Err(p) => return Err((USES[0], format!("size_hint() / next() / nth() on iter_bits() panicked: {p}"))),
     }
 
+    let (mut exp, mut got) = (vec![], vec![]);
     let mut judge = |pre: usize, u: Use| -> Result<(), (&'static str, String)> {
         cases[u.family()] += 1;
-        let exp = consume(members.iter().copied(), pre, u, cap);
+        consume(members.iter().copied(), pre, u, cap, &mut exp);
         let fam = USES[u.family()];
         let head = || format!("iter_bits() of the set with {l} members, after {pre} next() calls: {}", u.text());
-        match catch(|| consume(b.iter_bits(), pre, u, cap)) {
-            Ok(got) if got == exp => Ok(()),
-            Ok(got) => Err((fam, format!("{} gave {}, the ascending list of the set gives {}", head(), short(&got), short(&exp)))),
+        match catch(|| consume(b.iter_bits(), pre, u, cap, &mut got)) {
+            Ok(()) if got == exp => Ok(()),
+            Ok(()) => Err((fam, format!("{} gave {}, the ascending list of the set gives {}", head(), short(&got), short(&exp)))),
             Err(p) => Err((fam, format!("{} panicked: {p}", head()))),
         }
     };
@@ -618,11 +661,7 @@ fn iter_protocol<const N: usize>(b: &Bitset<N>, m: &[bool], marks: &[usize]) -> 
             judge(j, u)?;
         }
     }
-    for (c, n) in PROTOCOL_CASES.iter().zip(cases) {
-        c.fetch_add(n, Ordering::Relaxed);
-    }
-    NTH_LEAVING_A_STARTED_WORD.fetch_add(leaving, Ordering::Relaxed);
-    Ok(())
+    Ok(ProtocolCount { cases, leaving })
 }
 
 #[derive(Clone)]
@@ -640,6 +679,12 @@ struct Sys<const N: usize> {
     probe: Vec<usize>,
     /// capacities used by `touch`
     touch: Vec<usize>,
+    /// positions whose ranks the iterator protocol starts from and aims at (always `protocol_marks`)
+    marks: Vec<usize>,
+    /// full keys of the states whose per-state judgement has PASSED: the explorer asks once per chunk of
+    /// the frontier that discovers a state; a state that fails is judged again every time (so the first
+    /// finding in enumeration order does not depend on timing)
+    passed: Mutex<HashSet<Vec<u8>>>,
 }
 
 /// Debug is compared after every transition for N <= 10.  For the large capacities (where rendering 64N
@@ -651,14 +696,14 @@ fn debug_every_transition(n: usize) -> bool {
 
 impl<const N: usize> Sys<N> {
     fn closure(thorough: bool) -> Self {
-        Sys { pos: alphabet_positions(N, thorough), probe: boundary_positions(N), touch: neighbours(N) }
+        Sys { pos: alphabet_positions(N, thorough), probe: boundary_positions(N), touch: neighbours(N), marks: protocol_marks(N), passed: Mutex::default() }
     }
     fn full() -> Self {
-        Sys { pos: (0..64 * N).collect(), probe: boundary_positions(N), touch: neighbours(N) }
+        Sys { pos: (0..64 * N).collect(), probe: boundary_positions(N), touch: neighbours(N), marks: protocol_marks(N), passed: Mutex::default() }
     }
     /// a recorded history names its own actions: no menu is needed
     fn replay() -> Self {
-        Sys { pos: vec![], probe: boundary_positions(N), touch: vec![] }
+        Sys { pos: vec![], probe: boundary_positions(N), touch: vec![], marks: protocol_marks(N), passed: Mutex::default() }
     }
 }
 
@@ -755,14 +800,16 @@ impl<const N: usize> System for Sys<N> {
     }
 
     fn invariant(&self, s: &St<N>) -> Result<(), String> {
-        if debug_every_transition(N) {
+        PROGRESS.fetch_add(1, Ordering::Relaxed);
+        let key = self.canon(s);
+        if self.passed.lock().unwrap().contains(&key) {
             return Ok(());
         }
-        PROGRESS.fetch_add(1, Ordering::Relaxed);
-        match catch(|| check_debug(&s.b, &s.disp)) {
-            Ok(r) => r.map_err(|e| tag("state", e)),
-            Err(p) => Err(format!("[state.debug] formatting with {{:?}} panicked: {p}")),
+        let count = self.judge_state(s)?;
+        if self.passed.lock().unwrap().insert(key) {
+            count.record();
         }
+        Ok(())
     }
 
     fn canon(&self, s: &St<N>) -> Vec<u8> {
@@ -774,6 +821,20 @@ impl<const N: usize> System for Sys<N> {
 
     fn kind(&self, a: &Act) -> &'static str {
         kind_of(a)
+    }
+}
+
+impl<const N: usize> Sys<N> {
+    /// What is judged once per distinct state (and after every step of a replay): Debug for the large
+    /// capacities, and the iterator protocol.  Both only read the bitset, and a state is its complete contents.
+    fn judge_state(&self, s: &St<N>) -> Result<ProtocolCount, String> {
+        if !debug_every_transition(N) {
+            match catch(|| check_debug(&s.b, &s.disp)) {
+                Ok(r) => r.map_err(|e| tag("state", e))?,
+                Err(p) => return Err(format!("[state.debug] formatting with {{:?}} panicked: {p}")),
+            }
+        }
+        iter_protocol(&s.b, &s.m, &self.marks).map_err(|e| tag("state", e))
     }
 }
 
@@ -1139,6 +1200,12 @@ fn pairs_part<const N: usize>(cx: &mut Ctx, ev: &mut serde_json::Map<String, Val
     let k = pats_m.len().min(cap);
     let pats: Vec<Vec<u64>> = pats_m[..k].iter().map(|m| model_words(m)).collect();
     let words = |w: &[u64]| w.iter().map(|x| format!("{x:#x}")).collect::<Vec<_>>();
+    // every word is non-empty in some operand (a word that an operator leaves unwritten shows in the self-pair),
+    // and the LAST word holds different non-empty contents in two operands
+    let last_words: BTreeSet<u64> = pats.iter().map(|p| p[N - 1]).filter(|&x| x != 0).collect();
+    if !(0..N).all(|w| pats.iter().any(|p| p[w] != 0)) || last_words.len() < 2 {
+        cx.run.machinery_failure(&format!("N={N}: the operands of the binary operators leave a word empty, or do not vary in the last word"));
+    }
     let pr = match pairs::<N>(&pats) {
         Ok(pr) => pr,
         Err((i, m)) => {
@@ -1162,6 +1229,7 @@ fn pairs_part<const N: usize>(cx: &mut Ctx, ev: &mut serde_json::Map<String, Val
             "ordered_pairs": pr.pairs,
             "operator_evaluations": pr.evals,
             "pairs_properly_overlapping": pr.overlapping,
+            "distinct_non_empty_last_words_of_operands": last_words.len(),
             "distinct_results": pr.distinct_results,
         }),
     );
@@ -1199,6 +1267,8 @@ fn run_n<const N: usize>(run: &mut Run, fams: &mut Fams, tot: &mut Totals, plan:
     ev.insert("positions".into(), json!(pos));
     ev.insert("neighbour_probe_positions".into(), json!(boundary_positions(N)));
     ev.insert("touch_capacities".into(), json!(neighbours(N)));
+    ev.insert("iterator_protocol_marks".into(), json!(protocol_marks(N)));
+    let before = protocol_counts();
     let mut cx = Ctx { run, fams, tot, order: plan.order, warm: warm.clone() };
     in_fresh_pool(warm, || {
         // operand patterns: model BFS order (identical to the explorer's order when the closure held)
@@ -1211,6 +1281,14 @@ fn run_n<const N: usize>(run: &mut Run, fams: &mut Fams, tot: &mut Totals, plan:
             pairs_part::<N>(&mut cx, &mut ev, &pats_m);
         }
     });
+    let proto = protocol_evidence(&before);
+    if !run.has_violations() {
+        let zero = |k: &str| proto[k] == 0 || proto["cases_per_family"].as_object().is_some_and(|m| m.values().any(|v| *v == 0));
+        if zero("states_judged") || (N >= 2 && zero("nth_from_behind_a_yielded_member_inside_a_word_to_a_later_word_or_the_end")) {
+            run.machinery_failure(&format!("N={N}: the iterator protocol was not exercised in every family: {proto}"));
+        }
+    }
+    ev.insert("iterator_protocol".into(), proto);
     ev.insert("pass_wall_s".into(), json!((t0.elapsed().as_secs_f64() * 1000.0).round() / 1000.0));
     let key = match plan.order {
         Order::Ascending => format!("N={N}"),
@@ -1344,6 +1422,17 @@ fn main() {
         run_cap(n, &mut run, &mut fams, &mut tot, Plan { order: Order::Descending, thorough, closure: Some(bound), sweep_depth: 0, pairs: false, wall_cap });
     }
 
+    // one protocol case written out: {0, 63, 64, 191} of Bitset<3>, one item taken, then nth across the words
+    if !run.has_violations() {
+        let mut b = Bitset::<3>::from_u64(0x8000_0000_0000_0001);
+        b.set(64);
+        b.set(191);
+        let mut seen = vec![];
+        if catch(|| consume(b.iter_bits(), 1, Use::Nth(1), 194, &mut seen)).is_ok() {
+            run.sample(json!({"N": 3, "set": [0, 63, 64, 191], "after": "1 next() call", "consumed by": Use::Nth(1).text(), "observed": format!("{seen:?}")}));
+        }
+    }
+
     let closed: Vec<usize> = CAPS.into_iter().filter(|&n| thorough || n != 10).collect();
     let (pools, warmups) = (POOLS.load(Ordering::Relaxed), WARMUPS.load(Ordering::Relaxed));
     if pools != 2 * CAPS.len() as u64 || warmups < pools {
@@ -1361,6 +1450,7 @@ fn main() {
     run.cov("closure_prefix_transitions", tot.prefix_transitions);
     run.cov("bounded_sweep_states", tot.sweep_states);
     run.cov("bounded_sweep_transitions", tot.sweep_transitions);
+    run.cov("iterator_protocol", protocol_evidence(&(0, vec![0; USES.len()], 0)));
     run.cov("binary_operator_ordered_pairs", tot.pairs);
     run.cov("binary_operator_evaluations", tot.pair_evals);
     run.cov("exhaustive", tot.all_closed && !run.has_violations());
@@ -1379,6 +1469,14 @@ fn main() {
          the positions around the later multiples of 4096. After every transition test(i) for every i < 64N, count, iter_bits (exact list, at most 64N+1 items \
          pulled), == / != against a bitset rebuilt by set() and against one-bit neighbours at every position of P_N and around every multiple of 4096, Display \
          and Debug (all 64N characters; for N >= 64 Debug once per distinct state reached instead of per transition) are compared with a Vec<bool> model; state identity = model bits + Display rendering (no field dropped). Then & | ^ and \
+         Iterator protocol, once per distinct state of every closure, prefix and sweep (the iterator only reads the bitset and a state is its complete \
+         contents): with L members, small = {0,1,2,3,L-1,L,L+1} and ranks = small, L-2 and r-1,r,r+1 for the rank r of every mark (marks: P_N, the positions around \
+         every multiple of 4096, for N <= 10 also 64w-1,64w,64w+1 for every word w), an iterator that has yielded j items through next() is consumed by \
+         [nth(t-j), next(), nth(t-j), next()] for all j <= t in ranks (t = L, L+1: exactly and one more than what is left); by_ref().skip(k) (first three items, then next()) \
+         for j in small, k in ranks; step_by(s) (all items) for s in {1,2,3,64,65}, by_ref().take(k) then next() for k in small, last(), count(), fold (number and \
+         order-sensitive digest), and a walk to the first None followed by next(), next(), nth(0), nth(2), count(), last() (all None / 0: after all members any further item \
+         would be a non-member or a repetition), each for j in small; the observations must equal those of the SAME generic code run on the model's ascending Vec<usize>; \
+         size_hint() must satisfy lower <= items left <= upper before every next() of a full walk and after nth(k) for k in ranks. Then & | ^ and \
          &= |= ^= on all ordered pairs (self-pairs included) of the first min(states, 1500; 128 for N >= 64) patterns in BFS order, operands rebuilt from the \
          pattern by set(); results and operands read back through test(i) for every i. The full-alphabet sweep (every index 0..64N) is depth-bounded and reported \
          separately. Interference between capacities: every pass runs in a thread pool of its own whose threads first use a bitset of every OTHER capacity \
@@ -1388,6 +1486,7 @@ fn main() {
     run.assume("Display of a Bitset together with test(i) for every i < 64N exposes its complete state (the struct has the single field `data`); state identity uses the model bits plus the Display rendering");
     run.assume("histories over positions outside the alphabet of N are covered only to the stated depth of the full-alphabet sweep (quick: no such sweep for N >= 64); capacities other than those listed are not explored");
     run.assume("state shared between capacities is exercised through: the warm-up orders (all other capacities ascending / descending before the first judged call of a thread) and touch(M) inside histories for the neighbouring capacities; what a worker thread did for OTHER states of the same capacity before a judged call is not part of a recorded history");
+    run.assume("the iterator protocol is judged once per distinct state (model bits + Display rendering), not after every transition: iter_bits() borrows the bitset immutably, so what it yields can depend on the history only through the state; the adaptors themselves (skip, step_by, take, ...) are std's and are trusted, what is judged are the Iterator methods of the iterator that they call");
     run.assume("a call into the library that never returns cannot be decided without a clock: a watchdog turns a 120 s stall into exit 2 (machinery), never into a verdict");
     run.finish(&confirm)
 }
